@@ -54,6 +54,10 @@ ASSUMPTIONS = ["'shaped like an odML dictionary' = root dict whose 'Document' is
 READ_TIMEOUT = 8
 DTYPE_VALUES = [
     ("string", ["alpha", "b c"]), ("text", ["line one\nline two"]), ("int", [1, 2, 3]),
+    # values that stress the list syntax of the stored text and the dtype hints of the validation
+    ("string", ["Smith, John", "Doe, Jane"]), ("string", ['say "hi"', "it's", "a;b"]),
+    ("string", ["1234567890123456789012345678901234567890-A", "1000000000000000000000000000000.5x"]),
+    ("person", ["Doe, J."]),
     ("float", [1.5, -2.25]), ("boolean", [True, False]), ("date", ["2020-01-02"]),
     ("time", ["12:34:56"]), ("datetime", ["2020-01-02 03:04:05"]), ("url", ["http://x.org/a"]),
     ("person", ["Doe J"]), ("2-tuple", ["(1;2)", "(3;4)"]), ("int", []),
@@ -736,6 +740,11 @@ def attr_record_owner(new, fault):
 
 
 def explore(run_seed, tier, known=None):
+    return run_case(generate_case(run_seed, tier))
+
+
+def generate_case(run_seed, tier=None):
+    """The case of a run, without running it (also what a run that never returns is replayed from)."""
     rng = seeds.Streams(run_seed).get("gen")
     case = {"format": 1, "engine": "readfault", "property": PROPERTY, "run_seed": run_seed,
             "fmt": rng.choice(["xml", "xml", "json", "yaml"]), "doc_seed": rng.randrange(1 << 30),
@@ -749,7 +758,7 @@ def explore(run_seed, tier, known=None):
             {"kind": "root", "depth": rng.choice(sorted(ROOT_SHAPES))}
         case["faults"] = [] if rng.random() < 0.7 else "generate"
         case["kinds"] = ["bitflip", "truncate"]
-    return run_case(case)
+    return case
 
 
 def execute(case, known=None):
